@@ -169,7 +169,7 @@ func init() {
 	engine.Register(&engine.Prop{
 		ID: "C16",
 		Shards: func(th bool) []string {
-			s := []string{"special", "p0", "p1"}
+			s := []string{"special", "loopret", "p0", "p1"}
 			for i := range c16Conds(2) {
 				s = append(s, fmt.Sprintf("p2:%d", i))
 			}
@@ -179,7 +179,7 @@ func init() {
 			return s
 		},
 		Run:  c16Run,
-		Rule: "functions of p=0..3 parameters (a, b, c) whose bodies are decision chains (if (p_i == lit) { return V } …; return V) with V in {literal, empty string, p_j, p_j + \"x\"}, a side-effecting statement after every return (must not run), nested-if and let-in-body shapes; every argument tuple over {\"A\", \"B\", outer variable a (=\"B\"), outer variable b (=\"A\"), a nested call of the same function} — the outer variables are named like the parameters, so swapped arguments distinguish binding orders; result used in 12 ways (output tag, if condition incl. falsy results, !, == on either side, + on either side, let then use, argument of a recording Go helper, &&, array element, inside a for body). Plus nil arguments over every tuple of {nil, value, outer variables} for p<=3 (a parameter bound to nil must not fall through to a same-named caller variable), one identifier bound to different functions within a render, nested calls f(f(x)), g(f(x), f(y)) re-entrancy, higher-order apply(f, x), functions stored in let / passed through a Go helper / passed as parameters, recursion (countdown, factorial, fibonacci, mutual even/odd). Compared with a reference evaluation of the decision chain. Non-trivial: p >= 1.",
+		Rule: "functions of p=0..3 parameters (a, b, c) whose bodies are decision chains (if (p_i == lit) { return V } …; return V) with V in {literal, empty string, p_j, p_j + \"x\"}, a side-effecting statement after every return (must not run), nested-if and let-in-body shapes; every argument tuple over {\"A\", \"B\", outer variable a (=\"B\"), outer variable b (=\"A\"), a nested call of the same function} — the outer variables are named like the parameters, so swapped arguments distinguish binding orders; result used in 12 ways (output tag, if condition incl. falsy results, !, == on either side, + on either side, let then use, argument of a recording Go helper, &&, array element, inside a for body). Plus nil arguments over every tuple of {nil, value, outer variables} for p<=3 (a parameter bound to nil must not fall through to a same-named caller variable), one identifier bound to different functions within a render, nested calls f(f(x)), g(f(x), f(y)) re-entrancy, higher-order apply(f, x), functions stored in let / passed through a Go helper / passed as parameters, recursion (countdown, factorial, fibonacci, mutual even/odd, 60 deep), a return nested 0..9 blocks deep used as a value in 8 ways, 700 / 400 calls in a row from one scope, paths (field, method, index) continuing from a function's result, calling call results. Loop returns: functions whose return sits in a for loop of the body (search loop, unconditional, nested loops, loop inside if) over an array literal / context slice / Iterator / hash literal, every argument (hit at each position, no hit), 5 uses: value of the first return reached, no iteration and no statement after it. Compared with a reference evaluation of the decision chain. Non-trivial: p >= 1.",
 		Bound: func(th bool) string {
 			if th {
 				return "p<=3 with chains of <=2 conditions"
@@ -193,6 +193,8 @@ func c16Run(t *engine.T, shard string) {
 	switch {
 	case shard == "special":
 		c16Special(t)
+	case shard == "loopret":
+		c16LoopReturn(t)
 	case shard == "p0":
 		for _, v := range c16Vals(0) {
 			b := c16Body{"chain", nil, []c16Val{v}}
@@ -386,6 +388,42 @@ func c16Special(t *engine.T) {
 		}
 		rec(nil)
 	}
+	// a return nested d blocks deep (if / else / else-if mixtures) yields a plain value at every depth
+	for d := 0; d <= 9; d++ {
+		body := `return a + 1`
+		for i := 0; i < d; i++ {
+			switch i % 3 {
+			case 0:
+				body = `if (true) { ` + body + ` }`
+			case 1:
+				body = `if (false) { return 0 } else { ` + body + ` }`
+			case 2:
+				body = `if (false) { return 0 } else if (true) { ` + body + ` }`
+			}
+		}
+		def := `<% let pick = fn(a) { ` + body + `
+ return 99 } %>`
+		cases = append(cases, struct{ name, src, want string }{fmt.Sprintf("return nested %d blocks deep, used as a value", d),
+			def + `<%= pick(6) == 7 %>|<%= pick(6) + 1 %>|<%= 1 + pick(6) %>|<%= if (pick(6) == 7) { %>T<% } %>|<%= pick(pick(6)) %>|<% let r = pick(1) %><%= r * 2 %>|<%= [pick(2)][0] + 1 %>|<%= rec(pick(3)) %>`,
+			"true|8|8|T|8|4|4|4"})
+	}
+	// many calls, one after the other from the same scope, and a deep legitimate recursion
+	{
+		var want strings.Builder
+		for i := 1; i <= 700; i++ {
+			fmt.Fprintf(&want, "%d,", i+1)
+		}
+		cases = append(cases, struct{ name, src, want string }{"700 calls in a row from a loop body", `<% let inc = fn(a) { return a + 1 } %><%= for (i) in range(1, 700) { %><%= inc(i) %>,<% } %>`, want.String()})
+		var tags, wt strings.Builder
+		tags.WriteString(`<% let inc = fn(a) { return a + 1 } %>`)
+		for i := 1; i <= 400; i++ {
+			fmt.Fprintf(&tags, "<%%= inc(%d) %%>", i)
+			fmt.Fprintf(&wt, "%d", i+1)
+		}
+		cases = append(cases, struct{ name, src, want string }{"400 calls in a row from top-level tags", tags.String(), wt.String()})
+		cases = append(cases, struct{ name, src, want string }{"recursion 60 deep, twice", `<% let sum = fn(n) { if (n == 0) { return 0 }
+ return n + sum(n - 1) } %><%= sum(60) %>|<%= sum(60) %>`, "1830|1830"})
+	}
 	for _, c := range cases {
 		c := c
 		t.Case("special "+c.name+" "+q(c.src), true, func() (string, *engine.Fail) {
@@ -396,5 +434,109 @@ func c16Special(t *engine.T) {
 			}
 			return "match", nil
 		})
+	}
+}
+
+// c16LoopReturn: a return reached inside a for loop of the function body is the function's first return
+// reached: it ends the loop and the function, nothing after it runs. (On the pinned tree this is a recorded
+// finding, pattern return-in-loop: the loop swallows the return.)
+func c16LoopReturn(t *engine.T) {
+	iters := []struct {
+		name, src string
+		elems     []string
+	}{
+		{"array literal", `["A", "B", "C"]`, []string{"A", "B", "C"}},
+		{"context slice", `lst`, []string{"A", "B", "C"}},
+		{"iterator", `seq()`, []string{"A", "B", "C"}},
+		{"hash literal", `{"k": "B"}`, []string{"B"}},
+	}
+	shapes := []string{"search", "first", "nested", "in-if"}
+	for _, it := range iters {
+		for _, sh := range shapes {
+			for _, arg := range []string{"A", "B", "C", "Z"} {
+				var body string
+				switch sh {
+				case "search":
+					body = `for (v) in ` + it.src + ` { tick()
+ if (v == a) { return v + "x"
+ mark() } }
+ return "none"`
+				case "first":
+					body = `for (v) in ` + it.src + ` { tick()
+ return v + "x"
+ mark() }
+ return "none"`
+				case "nested":
+					body = `for (w) in [1, 2] { for (v) in ` + it.src + ` { tick()
+ if (v == a) { return v + "x" } } }
+ return "none"`
+				case "in-if":
+					body = `if (true) { for (v) in ` + it.src + ` { tick()
+ if (v == a) { return v + "x" } } }
+ return "none"`
+				}
+				// reference: which return is reached first, and how many loop iterations run before it
+				want, ticks, inLoop := "none", 0, false
+				rounds := 1
+				if sh == "nested" {
+					rounds = 2
+				}
+			outer:
+				for r := 0; r < rounds; r++ {
+					for _, e := range it.elems {
+						ticks++
+						if sh == "first" || e == arg {
+							want, inLoop = e+"x", true
+							break outer
+						}
+					}
+				}
+				def := `<% let f = fn(a) { ` + body + ` } %>`
+				for _, u := range []string{"emit", "cond", "concat", "let", "eq"} {
+					var src, expect string
+					switch u {
+					case "emit":
+						src, expect = def+`[<%= f("`+arg+`") %>]`, "["+want+"]"
+					case "cond":
+						src, expect = def+`<%= if (f("`+arg+`") == "none") { %>N<% } else { %>Y<% } %>`, map[bool]string{true: "N", false: "Y"}[want == "none"]
+					case "concat":
+						src, expect = def+`<%= "<" + f("`+arg+`") + ">" %>`, "&lt;"+want+"&gt;"
+					case "let":
+						src, expect = def+`<% let r = f("`+arg+`") %><%= r %>|<%= r %>`, want+"|"+want
+					case "eq":
+						src, expect = def+`<%= f("`+arg+`") == "`+want+`" %>`, "true"
+					}
+					wantTicks := ticks
+					if inLoop {
+						t.Pattern = "return-in-loop"
+					}
+					t.Case(fmt.Sprintf("loop-return %s %s use=%s %s", it.name, sh, u, q(src)), true, func() (string, *engine.Fail) {
+						e := &c16Env{}
+						c := e.context()
+						ticked := 0
+						c.Set("tick", func() string { ticked++; return "" })
+						c.Set("lst", []string{"A", "B", "C"})
+						c.Set("seq", func() plush.Iterator { return &c08ListIter{items: []interface{}{"A", "B", "C"}} })
+						out, err := Render(src, c)
+						if err != nil {
+							return "", engine.Failf("mismatch", "expected %q, got error %v", expect, err)
+						}
+						if out != expect {
+							return "", engine.Failf("mismatch", "expected %q (value of the first return reached), got %q", expect, out)
+						}
+						if e.marks != 0 {
+							return "", engine.Failf("after-return", "a statement after the first return reached was executed %d times", e.marks)
+						}
+						if ticked != wantTicks {
+							return "", engine.Failf("after-return", "%d loop iterations ran, the first return is reached in iteration %d", ticked, wantTicks)
+						}
+						if inLoop {
+							return "return-inside-loop", nil
+						}
+						return "return-after-loop", nil
+					})
+				}
+			}
+		}
 	}
 }
